@@ -248,6 +248,26 @@ theorem C12_relative_plain_refuses_Z (cs : List Char) (r : DateTimeRec) (h : dat
   simp only [hz, ho]
   split <;> simp
 
+/-- A zoned string with the `Z` designator denotes the exact UTC instant of its date-time: the result does not depend
+on the disambiguation or on the offset option (nor, by C13_exact_offset, on the zone's rules). -/
+theorem C12_zoned_Z_is_exact (cs : List Char) (r : DateTimeRec) (t : PTime) (h : dateTime cs = some r)
+    (ho : r.offset = some .z) (ht : r.time = some t) (dis dis' : Disamb) (oo oo' : OffsetOpt) :
+    zonedDateTime cs dis oo = zonedDateTime cs dis' oo' := by
+  unfold zonedDateTime
+  rw [h]
+  simp only [ho, ht, offsetParts, Option.map_some]
+  cases r.tz with
+  | none => rfl
+  | some cid =>
+    cases calendarId r.calendar with
+    | none => rfl
+    | some cal =>
+      simp only
+      cases IsoDate.newWithOverflow r.date.year r.date.month r.date.day .reject with
+      | ok d => simp only [Out.bind_ok]; unfold interpretOffset; rfl
+      | err k => rfl
+      | panic => rfl
+
 theorem C12_unparsable_is_range (cs : List Char) (dis : Disamb) (oo : OffsetOpt) (h : dateTime cs = none) :
     zonedDateTime cs dis oo = .err .range ∧ relativeTo cs = .err .range := by
   unfold zonedDateTime relativeTo
@@ -268,3 +288,4 @@ end TemporalModel
 #print axioms TemporalModel.C12_zone_offset_exact
 #print axioms TemporalModel.C12_zoned_requires_annotation
 #print axioms TemporalModel.C12_relative_plain_refuses_Z
+#print axioms TemporalModel.C12_zoned_Z_is_exact
